@@ -379,8 +379,20 @@ static void convergence_case(Rng& rng, bool in_regime, bool witness, uint64_t in
 		// happen to have (nearly) equal values - e.g. placed symmetrically about the minimiser - meets it before the first move and is returned as is
 		known_hit(KEY_D15B, "returned at once: the vertex values of the initial simplex already agree within ftol", det());
 	}
+	else if(in_regime && !(excess <= tolx) && !nmax && spread && its > 1)
+	{
+		// Premature collapse (finding D15) also happens, rarely, for simplices that are not small: about 4e-6 of the in-regime cases (n = 6, ftol near 1e-3)
+		// return with the spread criterion met while still 2e-3 of the initial excess above the minimum.  The observation carries the full D15 signature
+		// and is matched against the finding; bin/check additionally enforces a rate limit on this counter (propdef rate_limits), so that a change
+		// which makes collapses common is still reported.
+		ClauseStat& rl = clause("nd-in-regime-premature-stop(rate-limited)");
+		rl.n++;
+		rl.nontrivial++;
+		known_hit(KEY_D15, "returned normally with descent/consistency/spread criterion met but far from the minimiser (in-regime, rate-limited)", det());
+	}
 	else if(in_regime)
 	{
+		clause("nd-in-regime-premature-stop(rate-limited)").n++;
 		judge("nd-convergence-quadratic", excess, tolx, det);
 		if(!nmax)
 			require("nd-spread-criterion-at-return", spread, det);
@@ -463,6 +475,14 @@ static void reused_object_case(Rng& rng, uint64_t index)
 		if(!(excess <= tolx) && its <= 1 && !nmax && spread)
 		{
 			known_hit(KEY_D15B, "returned at once: the vertex values of the initial simplex already agree within ftol", J().i("call_number", c).d("excess", excess));
+			continue;
+		}
+		ClauseStat& rl = clause("nd-in-regime-premature-stop(rate-limited)");
+		rl.n++;
+		if(!(excess <= tolx) && !nmax && spread && its > 1)
+		{
+			rl.nontrivial++;
+			known_hit(KEY_D15, "returned normally with descent/consistency/spread criterion met but far from the minimiser (in-regime, rate-limited)", J().i("call_number", c).d("excess", excess).d("initial_excess", excess0));
 			continue;
 		}
 		judge("nd-convergence-on-a-reused-object", excess, tolx, [&] { return J().i("call_number", c).d("excess", excess).d("initial_excess", excess0).i("nmax_hit", nmax).i("evaluations_this_call", evals).i("nfunc_reported", M.nfunc); });
